@@ -296,7 +296,7 @@ Proof.
   destruct (vt_eqb (m_type m) V.Certificate && negb (certp_ok E)); [exact Hr|].
   destruct (negb (m_sig m)); [exact Hr|].
   destruct (m_stake m) as [[thr k]|]; [|exact Hr].
-  destruct (negb (cred_ok v m)); [exact Hr|].
+  destruct (cred_verdict E v m); try exact Hr.
   assert (Hmain : ws_step (v_ws v) (v_ws (fst (fst
     (let key := (m_round m, m_idx m) in
           let t := m_type m in
@@ -321,7 +321,17 @@ Proof.
                               (w_votes w2 V.Precommit House (m_hash m))], ret_ok)
               else (v1, [], ret_ok)
             | ADifferent =>
-              let v1 := set_ws v (set_wrapper ws key w1) in
+              let v0 := set_ws v (set_wrapper ws key w1) in
+              let v1 :=
+                match oldh with
+                | Some h0 =>
+                  if fix_latch E && negb (vt_eqb t V.NextIndex) && key_eqb key (cur_key v)
+                     && negb (over_threshold (match wsta w1 k t with Some s => cnt s h0 | None => 0 end)
+                                             thr (negb (vt_eqb t V.Certificate)))
+                  then set_over v0 ((h0, vst_clear (over_get v0 h0) t k) :: v_over v0)
+                  else v0
+                | None => v0
+                end in
               match oldh with
               | Some h0 =>
                 if negb (vt_eqb t V.NextIndex) && evid_on E
@@ -353,8 +363,10 @@ Proof.
           destruct (judge E (set_ws v (set_wrapper ws key w2)) (m_type m) total thr (m_hash m) (m_prio m) k) as [v2 e2].
           cbn [fst] in *. eapply ws_step_grow; [|exact G]. cbn [v_ws set_ws]. rewrite Hid. exact Hws.
         + destruct (over_threshold total thr false); cbn [fst v_ws set_ws]; rewrite Hid; exact Hws.
-      - destruct oldh; [destruct (negb (vt_eqb (m_type m) V.NextIndex) && evid_on E)|];
-          cbn [fst v_ws set_ws]; rewrite Hid; exact Hws. }
+      - destruct oldh;
+          [match goal with |- context [if ?c then set_over _ _ else _] => destruct c end;
+           destruct (negb (vt_eqb (m_type m) V.NextIndex) && evid_on E)|];
+          cbn [fst v_ws set_ws set_over]; rewrite Hid; exact Hws. }
     destruct (w_addr_info w (m_type m) k (m_sender m) (m_hash m)) as [[w1 res] oldh] eqn:Hai.
     pose proof (w_addr_info_mono _ _ _ _ _ _ _ _ Hai) as Hm1.
     destruct res; try (cbn [fst v_ws set_ws]; eapply Hset; [reflexivity|exact Hm1]).
@@ -367,8 +379,10 @@ Proof.
         destruct (judge E (set_ws v (set_wrapper ws key w2)) (m_type m) total thr (m_hash m) (m_prio m) k) as [v2 e2].
         cbn [fst] in *. eapply ws_step_grow; [|exact G]. cbn [v_ws set_ws]. eapply Hset; [reflexivity|exact Hm12].
       + destruct (over_threshold total thr false); cbn [fst v_ws set_ws]; eapply Hset; try reflexivity; exact Hm12.
-    - destruct oldh; [destruct (negb (vt_eqb (m_type m) V.NextIndex) && evid_on E)|];
-        cbn [fst v_ws set_ws]; eapply Hset; try reflexivity; exact Hm1. }
+    - destruct oldh;
+        [match goal with |- context [if ?c then set_over _ _ else _] => destruct c end;
+         destruct (negb (vt_eqb (m_type m) V.NextIndex) && evid_on E)|];
+        cbn [fst v_ws set_ws set_over]; eapply Hset; try reflexivity; exact Hm1. }
   destruct (m_status m); try exact Hmain; exact Hr.
 Qed.
 
